@@ -830,6 +830,56 @@ class Load(Op):
         return Exp("ok", value="loaded", owner=("C01", "C02", "C17"))
 
 
+class FailingReader:
+    """A stream over a good file that delivers `limit` bytes and then fails
+    (I/O error on the medium): read() hands out what is left before the limit,
+    the next call raises."""
+
+    def __init__(self, data, limit, err):
+        self.data, self.limit, self.err, self.pos = bytes(data), limit, err, 0
+
+    def read(self, n=-1):
+        if self.pos >= self.limit:
+            raise self.err
+        end = self.limit if n is None or n < 0 else min(self.limit, self.pos + n)
+        out = self.data[self.pos:end]
+        self.pos = end
+        if (n is None or n < 0) and self.limit < len(self.data):
+            raise self.err  # "read everything" cannot complete
+        return out
+
+
+@register
+class LoadFault(Op):
+    """{"op":"load_fault","path":P,"fail_after":k}: loading a GOOD file from a
+    stream that fails after k bytes. The loader must not return an IR (it has
+    seen a prefix only); nothing else in the process may change (twins of the
+    same file are loaded before and after this in the same run)."""
+
+    name = "load_fault"
+    family = "persist"
+    timeout_owner = ("C17",)
+
+    def ready(self, w, op):
+        return op["path"] in w.disk.files and op["path"] in w.snapshots and op["fail_after"] < len(w.disk.files[op["path"]])
+
+    def run(self, w, op):
+        import errno
+
+        st = FailingReader(w.disk.files[op["path"]], op["fail_after"], OSError(errno.EIO, "simulated read failure"))
+        out = capture(lambda: w.g.IR.load_protobuf_file(st))
+        if out.kind == "ok":
+            out.value = "loaded"
+        return out
+
+    def model(self, w, op, out):
+        w.counters["fault:read_error_during_load"] += 1
+        if out.kind == "ok":
+            w.dropped.append(out.raw)
+            w.violate(("C17", "C01"), "load:read_error_swallowed", "the stream failed after %d of %d bytes, load_protobuf_file returned an IR all the same" % (op["fail_after"], len(w.disk.files[op["path"]])))
+        return None
+
+
 @register
 class Restart(Op):
     """{"op":"restart"}: crash + restart. Every live object is dropped; the
